@@ -15,7 +15,7 @@ var stdAssumptions = []string{
 func init() {
 	registerCheck(&checkSpec{
 		id:    "C05",
-		dirs:  []string{"socket", "proto/jsonproto", "mixer/websocket/pbSubProto", "mixer/websocket/jsonSubProto"},
+		dirs:  []string{"socket", "proto/jsonproto", "proto/thriftproto", "mixer/websocket/pbSubProto", "mixer/websocket/jsonSubProto"},
 		level: "other",
 		jobs: func(tier string) []job {
 			var js []job
@@ -41,6 +41,11 @@ func init() {
 			}
 			js = append(js, J("socket", "VX_C05_RawSizeIndependent", 1, 2), J("socket", "VX_C05_RawSizeIndependent", 3, 0))
 			js = append(js, J("socket", "VX_C05_ReusedMessage", 1), J("socket", "VX_C20_Args", 2, -1, 3))
+			// thrift binary protocol (apache thrift THeader transport/protocol interpreted)
+			for g := 0; g <= 3; g++ {
+				js = append(js, J("proto/thriftproto", "VX_C05_ThriftBinary", g, 2))
+			}
+			js = append(js, J("proto/thriftproto", "VX_C05_ThriftBinary", 4, 0), J("proto/thriftproto", "VX_C05_ThriftSize", 1))
 			// json protocol: group(method, body, meta value, status msg), n, class(0 any byte = recorded finding, 1 text)
 			for g := 0; g <= 3; g++ {
 				js = append(js, J("proto/jsonproto", "VX_C05_JSONRoundTrip", g, 1, 1), J("proto/jsonproto", "VX_C05_JSONRoundTrip", g, 0, 1))
@@ -59,11 +64,11 @@ func init() {
 		},
 		assumptions: append(append([]string{}, stdAssumptions...), "strconv Format/Parse of SYMBOLIC integers are summarised by the round-trip contract (stub S-STRCONV); concrete integers run the real strconv code"),
 		explanation: "symbolic execution of the real raw-protocol Pack/Unpack code (go/ssa rebuilt from /repo) with symbolic field contents and solver-chosen short-read positions; each vxAssert is an SMT query (unsat = holds for all values of the symbolic bytes within the shape)",
-		bounds:      "raw protocol in depth; json protocol (gjson interpreted) with one symbolic text field of <= 2 bytes per instance; websocket protobuf sub-protocol (gogo-generated code interpreted) with symbolic seq/mtype/codec/method/meta/body; websocket json sub-protocol on concrete fields (frame built with fmt.Sprintf); pbproto/httproto/thrift not covered (library marshallers); raw: method<=3 bytes, body<=4, meta<=3 pairs of <=2-byte key/value, status msg/cause<=2 bytes, seq symbolic int32 or samples incl. extremes, two frames with <=2 short reads at any offset, transfer pipes of <=3 filters",
+		bounds:      "raw protocol in depth; json protocol (gjson interpreted) with one symbolic text field of <= 2 bytes per instance; websocket protobuf sub-protocol (gogo-generated code interpreted) with symbolic seq/mtype/codec/method/meta/body; websocket json sub-protocol on concrete fields (frame built with fmt.Sprintf); thrift binary protocol (apache thrift THeader code interpreted) with one symbolic field of <= 2 bytes or a symbolic seq per instance; pbproto/httproto and the thrift struct protocol not covered here; raw: method<=3 bytes, body<=4, meta<=3 pairs of <=2-byte key/value, status msg/cause<=2 bytes, seq symbolic int32 or samples incl. extremes, two frames with <=2 short reads at any offset, transfer pipes of <=3 filters",
 	})
 	registerCheck(&checkSpec{
 		id:    "C06",
-		dirs:  []string{"socket", "proto/jsonproto", "proto/httproto", "."},
+		dirs:  []string{"socket", "proto/jsonproto", "proto/httproto", "proto/thriftproto", "."},
 		level: "other",
 		jobs: func(tier string) []job {
 			var js []job
@@ -88,6 +93,7 @@ func init() {
 				js = append(js, J(".", "VX_C06_SessionBytes", n, n%2))
 				js = append(js, J(".", "VX_C06_PoolAfterOversize", n+1))
 			}
+			js = append(js, J("proto/thriftproto", "VX_C06_ThriftOversize", 8192, 12000))
 			js = append(js, J(".", "VX_C06_SessionFieldBytes", 0, 3), J(".", "VX_C06_SessionFieldBytes", 1, 2), J(".", "VX_C06_SessionFieldBytes", 2, 2))
 			if tier == "thorough" {
 				js = append(js, J(".", "VX_C06_SessionFieldBytes", 1, 3), J(".", "VX_C06_SessionFieldBytes", 2, 3))
@@ -109,6 +115,7 @@ func init() {
 		jobs: func(tier string) []job {
 			js := []job{J("socket", "VX_C12_PipeInverts", 0, 2), J("socket", "VX_C12_PipeInverts", 1, 2), J("socket", "VX_C12_PipeInverts", 2, 2),
 				J("socket", "VX_C12_PipeOnWire", 1, 1), J("socket", "VX_C12_PipeOnWire", 2, 1), J("socket", "VX_C12_Unregistered"), J("socket", "VX_C12_TooLong"),
+				J("socket", "VX_C12_PipeLengthOnWire", 255, 1), J("socket", "VX_C12_PipeLengthOnWire", 254, 1), J("socket", "VX_C12_PipeLengthOnWire", 128, 2), J("socket", "VX_C12_PipeLengthOnWire", 127, 1),
 				// a reply (also an error reply) goes through the caller's pipe: [C12]-tagged assertion of the frame harness
 				J(".", "VX_C03_Frame", 1, 0, 0, 0, 0, 0, 1, 1), J(".", "VX_C03_Frame", 1, 1, 0, 0, 0, 0, 1, 1), J(".", "VX_C03_Frame", 1, 2, 0, 0, 0, 0, 0, 1), J(".", "VX_C03_Frame", 1, 0, 0, 1, 0, 0, 1, 1), J(".", "VX_C03_Frame", 1, 0, 0, 2, 0, 0, 1, 1), J(".", "VX_C03_Frame", 1, 0, 0, 0, 2, 0, 1, 1)}
 			for _, a := range [][]int{{2, 0}, {2, 1}, {1, 2}, {2, 3}, {0, 2}, {0, 0}} {
@@ -133,6 +140,7 @@ func init() {
 				J("socket", "VX_C20_Message", 1, 1, 0, 1), J("socket", "VX_C20_Message", 1, 1, 1, 1), J("socket", "VX_C20_Message", 1, 1, 2, 0), J("socket", "VX_C20_Message", 1, 1, 3, 1),
 				J("socket", "VX_C20_Args", 1, 1, 1), J("socket", "VX_C20_Args", 2, 1, 1), J("socket", "VX_C20_XferPipe", 2), J("socket", "VX_C20_ByteBuffer", 2, 1),
 				J(".", "VX_C20_ContextReuse", 0, 1), J(".", "VX_C20_ContextReuse", 1, 1), J(".", "VX_C20_ContextReuse", 2, 0),
+				J(".", "VX_C20_PreSessionPools", 0, 0), J(".", "VX_C20_PreSessionPools", 0, 1), J(".", "VX_C20_PreSessionPools", 1, 0), J(".", "VX_C20_PreSessionPools", 1, 1), J(".", "VX_C20_PreSessionPools", 2, 0), J(".", "VX_C20_PreSessionPools", 2, 1),
 			}
 			if tier == "thorough" {
 				js = append(js, J("socket", "VX_C20_Message", 2, 1, 0, 2), J("socket", "VX_C20_Message", 2, 2, 3, 2), J("socket", "VX_C20_Args", 2, 1, 2), J("socket", "VX_C20_Args", 1, 2, 3), J("socket", "VX_C20_Args", 2, -1, 3), J("socket", "VX_C05_ReusedMessage", 2))
@@ -263,7 +271,7 @@ func init() {
 		bounds:      "2 pending calls, 2 frames, body <= 3 bytes; concurrency of writers and sequence allocation not yet covered (sequential schedules)",
 	})
 	registerCheck(&checkSpec{
-		id: "C04", dirs: []string{"socket", ".", "proto/jsonproto", "mixer/websocket/pbSubProto", "mixer/websocket/jsonSubProto"}, level: "other",
+		id: "C04", dirs: []string{"socket", ".", "proto/jsonproto", "proto/thriftproto", "mixer/websocket/pbSubProto", "mixer/websocket/jsonSubProto"}, level: "other",
 		jobs: func(tier string) []job {
 			js := []job{J("socket", "VX_C04_ResetLeavesSharedStatus", 1)}
 			js = append(js, c02jobs("quick")[:8]...)
@@ -273,7 +281,8 @@ func init() {
 			js = append(js, J(".", "VX_C03_Frame", 1, 1, 0, 0, 0, 0, 1, 0), J(".", "VX_C03_Frame", 1, 2, 0, 0, 0, 0, 1, 0), J(".", "VX_C03_Frame", 1, 1, 1, 0, 0, 0, 1, 0), J(".", "VX_C03_Frame", 1, 0, 0, 0, 2, 0, 1, 0))
 			// wire link over the other protocols
 			js = append(js, J("proto/jsonproto", "VX_C05_JSONRoundTrip", 3, 1, 1), J("proto/jsonproto", "VX_C05_JSONRoundTrip", 3, 0, 1),
-				J("mixer/websocket/pbSubProto", "VX_C04_WSPbStatus"), J("mixer/websocket/jsonSubProto", "VX_C04_WSJsonStatus"))
+				J("mixer/websocket/pbSubProto", "VX_C04_WSPbStatus"), J("mixer/websocket/jsonSubProto", "VX_C04_WSJsonStatus"),
+				J("proto/thriftproto", "VX_C05_ThriftBinary", 3, 2), J("proto/thriftproto", "VX_C04_ThriftBinarySeq", 1))
 			if tier == "thorough" {
 				js = append(js, c02jobs("thorough")...)
 			}
@@ -281,12 +290,12 @@ func init() {
 		},
 		assumptions: rootAssume,
 		explanation: "three links on real code: server side (status of the reply as a function of handler outcome / framework rule), raw wire (status round trip, shared with C05), client side (callCmd status from the reply's status and the decode result); statuses symbolic",
-		bounds:      "wire link over raw, json and the two websocket sub-protocols; server/client links over raw; library body codecs excluded (decode failure is produced by an unregistered codec id or the nil codec)",
+		bounds:      "wire link over raw, json, thrift-binary (incl. four replies in sequence on one connection) and the two websocket sub-protocols; server/client links over raw; library body codecs excluded (decode failure is produced by an unregistered codec id or the nil codec)",
 	})
 	c19jobs := func(tier string) []job {
 		var js []job
 		// realIP, backendMode, nBody, nMeta, replyMeta
-		for _, a := range [][]int{{0, 0, 1, 1, 1}, {1, 0, 1, 0, 0}, {0, 1, 1, 0, 1}, {1, 1, 0, 1, 0}, {0, 2, 1, 0, 0}, {1, 2, 1, 1, 0}} {
+		for _, a := range [][]int{{0, 0, 1, 1, 1}, {1, 0, 1, 0, 0}, {0, 1, 1, 0, 1}, {1, 1, 0, 1, 0}, {0, 2, 1, 0, 0}, {1, 2, 1, 1, 0}, {0, 0, 2, 0, 0, 0}, {0, 0, 1, 0, 1, 3}, {0, 0, 0, 0, 0, 2}} {
 			js = append(js, J("plugin/proxy", "VX_C19_ProxyCall", a...))
 		}
 		for _, a := range [][]int{{0, 0, 1}, {1, 0, 1}, {0, 1, 1}, {1, 1, 0}} {
@@ -308,6 +317,8 @@ func init() {
 		jobs: func(tier string) []job {
 			js := []job{J(".", "VX_C02_Replies", 1, 1, 0, 2, 0, 9, 0), J(".", "VX_C02_Replies", 1, 1, 0, 2, 0, 3, 0), J(".", "VX_C02_Replies", 0, 1, 1, 1, 0, 0, 0), J(".", "VX_C02_CloseThenLoss", 0),
 				J(".", "VX_C03_Frame", 1, 1, 0, 0, 0, 0, 1, 0), J(".", "VX_C03_Frame", 1, 0, 0, 2, 0, 0, 1, 0), J(".", "VX_C03_Frame", 1, 0, 0, 3, 0, 2, 1, 0), J(".", "VX_C03_Frame", 9, 0, 0, 0, 0, 0, 1, 0), J(".", "VX_C03_Frame", 1, 2, 0, 0, 0, 1, 1, 0)}
+			// framework-produced replies (404/400/500/veto) whose write fails with a transport error and is retried
+			js = append(js, J(".", "VX_C03_Frame", 1, 1, 0, 0, 0, 2, 1, 0), J(".", "VX_C03_Frame", 1, 2, 0, 0, 0, 2, 1, 0), J(".", "VX_C03_Frame", 1, 0, 0, 2, 0, 2, 1, 0), J(".", "VX_C03_Frame", 1, 0, 0, 1, 0, 2, 1, 0), J(".", "VX_C03_Frame", 1, 0, 0, 0, 2, 2, 1, 0), J(".", "VX_C03_Frame", 1, 1, 0, 0, 0, 1, 1, 0))
 			js = append(js, c19jobs("quick")...)
 			if tier == "thorough" {
 				js = append(js, c02jobs("thorough")...)
@@ -399,13 +410,16 @@ func init() {
 		jobs: func(tier string) []job {
 			var js []job
 			add := func(a ...int) { js = append(js, J("plugin/auth", "VX_C16_Auth", a...)) }
-			// first, nBytes, pipelined, otherPluginAfter
+			// first, nBytes, pipelined, otherPluginAfter[, setID]
 			add(0, 0, 1, 1)
 			add(0, 0, 1, 0)
 			add(1, 0, 1, 1)
 			add(1, 0, 0, 0)
 			add(2, 0, 1, 1)
 			add(4, 0, 0, 1)
+			add(0, 0, 1, 1, 1) // the verifier names the session (SetID) before deciding
+			add(1, 0, 0, 0, 1)
+			add(4, 0, 0, 1, 1)
 			for _, n := range []int{1, 3, 4, 5, 6} {
 				add(3, n, 0, 1)
 			}
@@ -426,9 +440,10 @@ func init() {
 		jobs: func(tier string) []job {
 			js := []job{J("plugin/overloader", "VX_C18_ConnHistory", 1, 3, 0), J("plugin/overloader", "VX_C18_ConnHistory", 1, 3, 1), J("plugin/overloader", "VX_C18_ConnHistory", 2, 4, 0),
 				J("plugin/overloader", "VX_C18_ConnRace", 1), J("plugin/overloader", "VX_C18_ConnRace", 2),
-				J("plugin/overloader", "VX_C18_QPS", 2, 3), J("plugin/overloader", "VX_C18_QPS", 1, 1), J("plugin/overloader", "VX_C18_QPSSession", 1, 3, 0), J("plugin/overloader", "VX_C18_QPSSession", 2, 3, 1), J("plugin/overloader", "VX_C18_QPSRace", 1, 1, 1, 2), J("plugin/overloader", "VX_C18_QPSRace", 2, 2, 3, 2)}
+				J("plugin/overloader", "VX_C18_QPS", 2, 3), J("plugin/overloader", "VX_C18_QPS", 1, 1), J("plugin/overloader", "VX_C18_QPSSession", 1, 3, 0), J("plugin/overloader", "VX_C18_QPSSession", 2, 3, 1), J("plugin/overloader", "VX_C18_QPSRace", 1, 1, 1, 2), J("plugin/overloader", "VX_C18_QPSRace", 2, 2, 3, 2),
+				J("plugin/overloader", "VX_C18_QPSInvariant", 4)}
 			if tier == "thorough" {
-				js = append(js, J("plugin/overloader", "VX_C18_ConnHistory", 2, 5, 1), J("plugin/overloader", "VX_C18_ConnHistory", 1, 5, 1), J("plugin/overloader", "VX_C18_QPSRace", 3, 3, 4, 2))
+				js = append(js, J("plugin/overloader", "VX_C18_QPSInvariant", 7), J("plugin/overloader", "VX_C18_ConnHistory", 2, 5, 1), J("plugin/overloader", "VX_C18_ConnHistory", 1, 5, 1), J("plugin/overloader", "VX_C18_QPSRace", 3, 3, 4, 2))
 			}
 			return js
 		},
@@ -439,7 +454,7 @@ func init() {
 	registerCheck(&checkSpec{
 		id: "C13", dirs: []string{"."}, level: "other",
 		jobs: func(tier string) []job {
-			js := []job{J(".", "VX_C13_Redial", 1, 0, 1), J(".", "VX_C13_Redial", 1, 1, 0), J(".", "VX_C13_Redial", 2, 0, 0), J(".", "VX_C13_Redial", 2, 1, 1), J(".", "VX_C13_Redial", 1, 2, 1)}
+			js := []job{J(".", "VX_C13_Redial", 1, 0, 1), J(".", "VX_C13_Redial", 1, 1, 0), J(".", "VX_C13_Redial", 2, 0, 0), J(".", "VX_C13_Redial", 2, 1, 1), J(".", "VX_C13_Redial", 1, 2, 1), J(".", "VX_C13_Redial", 9, 0, 0)}
 			if tier == "thorough" {
 				js = append(js, J(".", "VX_C13_Redial", 9, 0, 1), J(".", "VX_C13_Redial", 2, 0, 1), J(".", "VX_C13_Redial", 1, 0, 0))
 			}
@@ -460,7 +475,8 @@ func init() {
 			}
 			js = append(js, J("plugin/secure", "VX_C17_Call", 1, 0, 0, 1), J("plugin/secure", "VX_C17_Call", 0, 0, 0, 1), J("plugin/secure", "VX_C17_Call", 1, 1, 1, 0),
 				J("plugin/secure", "VX_C17_Push", 1, 1, 1), J("plugin/secure", "VX_C17_Push", 0, 1, 1), J("plugin/secure", "VX_C17_Push", 1, 0, 1),
-				J("plugin/secure", "VX_C17_PushRedial", 0, 1), J("plugin/secure", "VX_C17_PushRedial", 1, 1))
+				J("plugin/secure", "VX_C17_PushRedial", 0, 1), J("plugin/secure", "VX_C17_PushRedial", 1, 1),
+				J("plugin/secure", "VX_C17_Sequence", 1, 1, 1), J("plugin/secure", "VX_C17_Sequence", 0, 1, 1), J("plugin/secure", "VX_C17_Sequence", 1, 0, 1), J("plugin/secure", "VX_C17_Sequence", 0, 0, 1))
 			if tier == "thorough" {
 				js = append(js, J("plugin/secure", "VX_C17_Call", 1, 0, 1, 3), J("plugin/secure", "VX_C17_Call", 1, 1, 0, 3), J("plugin/secure", "VX_C17_Push", 1, 1, 3), J("plugin/secure", "VX_C17_PushRedial", 0, 3))
 			}
@@ -488,13 +504,15 @@ func init() {
 			js = append(js, J("codec", "VX_C11_PlainGarbage", 5, 0), J("codec", "VX_C11_PlainGarbage", 4, 1),
 				J("codec", "VX_C11_PlainReuse", 3, 1), J("codec", "VX_C11_PlainReuse", 2, 0), J("codec", "VX_C11_PlainReuse", 1, 2),
 				J("codec", "VX_C11_FormRoundTrip", 0, 1, 0), J("codec", "VX_C11_FormRoundTrip", 1, 1, 2), J("codec", "VX_C11_FormRoundTrip", 1, 0, 3), J("codec", "VX_C11_FormRoundTrip", 2, 1, 0), J("codec", "VX_C11_FormRoundTrip", 3, 1, 1),
-				J("codec", "VX_C11_FormGarbage", 1, 1), J("codec", "VX_C11_FormGarbage", 1, 2), J("codec", "VX_C11_FormGarbage", 1, 3), J("codec", "VX_C11_FormGarbage", 0, 2), J("codec", "VX_C11_FormGarbage", 0, 3))
+				J("codec", "VX_C11_FormGarbage", 1, 1), J("codec", "VX_C11_FormGarbage", 1, 2), J("codec", "VX_C11_FormGarbage", 1, 3), J("codec", "VX_C11_FormGarbage", 0, 2), J("codec", "VX_C11_FormGarbage", 0, 3),
+				J("codec", "VX_C11_ThriftRoundTrip", 2), J("codec", "VX_C11_ThriftGarbage", 4), J("codec", "VX_C11_ThriftGarbage", 6),
+				J("codec", "VX_C11_EncodingsIndependent", 0, 1), J("codec", "VX_C11_EncodingsIndependent", 1, 1), J("codec", "VX_C11_EncodingsIndependent", 2, 1))
 			if tier == "thorough" {
 				js = append(js, J("codec", "VX_C11_PlainGarbage", 5, 4), J("codec", "VX_C11_PlainGarbage", 0, 4), J("codec", "VX_C11_FormGarbage", 0, 4), J("codec", "VX_C11_FormRoundTrip", 0, 2, 0))
 			}
 			return js
 		},
-		assumptions: append(append([]string{}, stdAssumptions...), "reflect is the engine's model (types from go/types; addressable values; the subset used by the plain and form codecs)", "json, xml, protobuf and thrift codecs are three-line delegations to reflection/table-driven library encoders and are outside the claim; floats excluded"),
+		assumptions: append(append([]string{}, stdAssumptions...), "reflect is the engine's model (types from go/types; addressable values; the subset used by the plain and form codecs)", "json, xml and protobuf codecs are three-line delegations to reflection/table-driven library encoders and are outside the claim; the thrift codec is executed (apache thrift TBinaryProtocol interpreted) on a hand-written TStruct (string + i32); floats excluded"),
 		explanation: "the real PlainCodec and FormCodec (formatProperType/parseProperType, setStructToForm/mapFormToStruct/setWithProperType, url.Values.Encode/url.ParseQuery interpreted) are executed on symbolic values and on arbitrary symbolic input bytes; round trip incl. element order, no panic leaving the codec, and independence of the decoded value from the input buffer are SMT-checked assertions",
 		bounds:      "plain: string/named string/[]byte/named bytes (<= 1-3 bytes), bool, int8/32/64, uint8/64; form: struct with string/int8/bool/[]string(<=3)/[2]string/nested struct, one symbolic field group per instance; arbitrary input <= 3 (quick) / 4 bytes",
 	})
@@ -506,6 +524,7 @@ func init() {
 				js = append(js, J(".", "VX_C14_Races", sc, 0))
 			}
 			js = append(js, J(".", "VX_C14_Races", 0, 1), J(".", "VX_C14_Races", 4, 1))
+			js = append(js, J(".", "VX_C14_DisconnectWhileLaunching", 0), J(".", "VX_C14_DisconnectWhileLaunching", 1))
 			if tier == "thorough" {
 				for sc := 1; sc <= 6; sc++ {
 					js = append(js, J(".", "VX_C14_Races", sc, 1))
@@ -515,6 +534,6 @@ func init() {
 		},
 		assumptions: append(append([]string{}, rootAssume...), "race = two conflicting plain accesses (or a plain and an atomic access) to the same memory cell or Go map, not ordered by happens-before built from: mutex/rwmutex unlock->lock, atomic operations per cell, channel send->receive and close->receive, WaitGroup Done->Wait, goroutine start, sync.Map/goutil.Map and sync.Pool operations; accesses made by harness code are not reported", "races inside stubbed libraries (thrift, websocket, net/http) and in the thrift protocol's byte counters are outside the claim"),
 		explanation: "documented-concurrent operations (swap access, id change vs lookup/enumeration, concurrent calls with reply delivery, push vs reply write vs close, age setters/getters, double close, call vs remote close) run in separate interpreted goroutines of the real code with a vector-clock happens-before race detector over every interpreted load/store/map access; detection is per execution and schedule-independent for the executed paths; selected scenarios additionally explored over schedules with one pre-emption",
-		bounds:      "7 scenarios of 2-3 goroutines; run-to-block schedule (+ all schedules with 1 pre-emption for listed scenarios); sequentially consistent execution",
+		bounds:      "7 scenarios of 2-3 goroutines plus a call being launched (inside its pre-write hook) while the reader handles the loss of the connection; run-to-block schedule (+ all schedules with 1 pre-emption for listed scenarios); sequentially consistent execution",
 	})
 }
